@@ -240,6 +240,11 @@ impl MemcacheBinaryCodec {
             return Err(Error::new(ErrorKind::Other, "Header body length too large"));
         }
 
+        // A request is made of exactly the body_length bytes its header
+        // announces: parse only those, whatever the per-opcode parser consumes.
+        let mut body = src.split_to(self.header.body_length as usize);
+        let src = &mut body;
+
         let result = match FromPrimitive::from_u8(self.header.opcode) {
             Some(binary::Command::Get)
             | Some(binary::Command::GetQuiet)
